@@ -350,13 +350,24 @@ func (e *kvElection) attemptAcquire() error {
 	)
 
 	e.recordAcquireAttempt("success")
-	e.becomeLeader(token, rev)
+	if !e.becomeLeader(token, rev) {
+		return ErrAlreadyStopped
+	}
 	return nil
 }
 
-func (e *kvElection) becomeLeader(token string, rev uint64) {
+// becomeLeader claims leadership after the instance's own Create/Update succeeded.
+// It reports false, and claims nothing, if the election is no longer running.
+func (e *kvElection) becomeLeader(token string, rev uint64) bool {
 	e.mu.Lock()
 	defer e.mu.Unlock()
+
+	// Stop/StopWithContext clear the claim and cancel the context under this
+	// mutex. An acquisition that completes afterwards must not claim leadership:
+	// nothing would refresh the record or ever clear the claim again.
+	if e.ctx == nil || e.ctx.Err() != nil {
+		return false
+	}
 
 	fromState := StateInit
 	if s := e.state.Load(); s != nil {
@@ -427,6 +438,8 @@ func (e *kvElection) becomeLeader(token string, rev uint64) {
 			e.onPromote(promoteCtx, token)
 		}()
 	}
+
+	return true
 }
 
 func (e *kvElection) attemptPriorityTakeover(payloadBytes []byte) error {
@@ -477,7 +490,9 @@ func (e *kvElection) attemptPriorityTakeover(payloadBytes []byte) error {
 
 	e.revision.Store(newRev)
 	e.token.Store(newPayloadStruct.Token)
-	e.becomeLeader(newPayloadStruct.Token, newRev)
+	if !e.becomeLeader(newPayloadStruct.Token, newRev) {
+		return ErrAlreadyStopped
+	}
 	return nil
 }
 
@@ -510,6 +525,12 @@ func (e *kvElection) enterFollowerState(demote bool) bool {
 		if str, ok := s.(string); ok {
 			fromState = str
 		}
+	}
+
+	// Stop is final: a goroutine that outlived it must not turn STOPPED back
+	// into FOLLOWER or start a new watcher. (Stop already cleared the claim.)
+	if fromState == StateStopped {
+		return false
 	}
 
 	e.isLeader.Store(false)
